@@ -14,7 +14,7 @@ ANCHORS = ['numdifftools.core:Jacobian._derivative_nonzero_order', 'numdifftools
 ALSO_WATCHED = ['numdifftools.core:Jacobian._expand_steps', 'numdifftools.finite_difference:LogJacobianRule._vstack',
                 'numdifftools.finite_difference:JacobianDifferenceFunctions.increments']
 MIN_COUNTERS = dict(quick={'jacobian_shape_asserted': 1200, 'affine_entries_asserted': 5000, 'smooth_entries_asserted': 2000,
-                           'matrix_valued_asserted': 200, 'gradient_asserted': 200, 'directionaldiff_asserted': 150,
+                           'matrix_valued_asserted': 200, 'gradient_asserted': 200, 'directionaldiff_asserted': 150, 'directions_of_nearly_unit_length': 25,
                            'length_one_output_cases': 100, 'nested_gradient_cases': 40},
                     thorough={'affine_entries_asserted': 200000})
 RULE = ('x also as list / tuple / plain float, Python ints with integer affine maps, float32 arrays. ' 
@@ -372,6 +372,19 @@ def run_case(case, ctx):
             v = rng.normal(size=n) * 10.0 ** rng.uniform(-1, 1)
             if not np.any(v):
                 v[0] = 1.0
+            vclass = int(rng.integers(0, 10))
+            if vclass in (0, 1, 2):
+                # directions whose length is close to, but not exactly, one: a unit vector scaled by 1 +- 1e-7 .. 1e-4, or a
+                # coordinate axis with small components in the other coordinates ("for any non-zero v": normalised all the same)
+                if vclass == 2 and n > 1:
+                    v = rng.normal(size=n) * 10.0 ** rng.uniform(-4, -2.3)
+                    v[int(rng.integers(0, n))] = float(rng.choice([-1.0, 1.0]))
+                else:
+                    v = v / np.linalg.norm(v) * (1.0 + float(rng.choice([-1.0, 1.0])) * 10.0 ** rng.uniform(-7, -4))
+                ctx.count('directions_of_nearly_unit_length')
+            elif vclass == 3:
+                v = v * 10.0 ** (float(rng.choice([-1.0, 1.0])) * rng.uniform(6, 12))       # very long / very short directions
+                ctx.count('directions_of_extreme_length')
             xin, vin = x.copy(), v.copy()
             if case['xmat'] and n % 2 == 0 and n > 2:
                 xin, vin = _laid_out(x.reshape(2, n // 2), case, ctx), _laid_out(v.reshape(2, n // 2), case, ctx, salt=1)
